@@ -165,6 +165,29 @@ var c18Model = porcupine.Model{
 	},
 }
 
+// spinBarrier releases all goroutines of a run at (nearly) the same instant: each arrival is counted, the last phase is
+// a spin on one flag.  Windows of a few instructions (a lazily normalised key, a buffer patched in place for the
+// duration of a parse) need starts that are closer together than a closed channel gives.
+type spinBarrier struct {
+	n, arrived, release int32
+}
+
+func (b *spinBarrier) wait() {
+	atomic.AddInt32(&b.arrived, 1)
+	for i := 0; atomic.LoadInt32(&b.release) == 0; i++ {
+		if i%256 == 255 {
+			runtime.Gosched()
+		}
+	}
+}
+
+func (b *spinBarrier) open() {
+	for atomic.LoadInt32(&b.arrived) < b.n {
+		runtime.Gosched()
+	}
+	atomic.StoreInt32(&b.release, 1)
+}
+
 func c18ErrClass(err error) string {
 	switch {
 	case err == nil:
@@ -187,7 +210,8 @@ func TestC18_Linearizable(t *testing.T) {
 		th := g.Int("t", 1, min(3, n-1))
 		cfg := c18Cfg{n, th}
 		msg := []byte("c18")
-		sks, pks, gpk, err := crypto.BLSThresholdKeyGen(n, th, g.Bytes("seed", 32, 32))
+		seedBytes := g.Bytes("seed", 32, 32)
+		sks, _, _, err := crypto.BLSThresholdKeyGen(n, th, seedBytes)
 		if err != nil {
 			g.Fatalf("BLSThresholdKeyGen: %v", err)
 		}
@@ -271,6 +295,18 @@ func TestC18_Linearizable(t *testing.T) {
 				prog[gi] = append(prog[gi], op)
 			}
 		}
+		if g.Chance("stampede", 1, 3) {
+			// every goroutine starts with the same call on the same signer and the same share buffer: first use of the
+			// signer's key object and of the buffer by all of them at once
+			first := c18Op{idx: g.Pick("stampedeIdx", n), share: "good", sig: "good", kind: []string{"verifyShare", "verifyShare", "verifyAndAdd", "trustedAdd"}[g.Pick("stampedeKind", 4)]}
+			for gi := range prog {
+				prog[gi] = append([]c18Op{first}, prog[gi]...)
+			}
+			if first.kind != "verifyShare" {
+				mutating += len(prog)
+			}
+			g.Class("stampede:" + first.kind)
+		}
 		runs := 10
 		if thorough() {
 			runs = 20
@@ -282,7 +318,13 @@ func TestC18_Linearizable(t *testing.T) {
 		defer runtime.GOMAXPROCS(runtime.GOMAXPROCS(0))
 		for run := 0; run < runs; run++ {
 			runtime.GOMAXPROCS(procs[run%len(procs)])
-			ins, err := crypto.NewBLSThresholdSignatureParticipant(gpk, pks, th, me, sks[me], msg, "c18")
+			// fresh key objects for every run (same seed, same keys): whatever the first use of a key object does happens
+			// inside the concurrent phase of every run, not once in the first
+			sksR, pksR, gpkR, err := crypto.BLSThresholdKeyGen(n, th, seedBytes)
+			if err != nil {
+				g.Fatalf("BLSThresholdKeyGen: %v", err)
+			}
+			ins, err := crypto.NewBLSThresholdSignatureParticipant(gpkR, pksR, th, me, sksR[me], msg, "c18")
 			if err != nil {
 				g.Fatalf("NewBLSThresholdSignatureParticipant: %v", err)
 			}
@@ -290,13 +332,13 @@ func TestC18_Linearizable(t *testing.T) {
 			var mu sync.Mutex
 			var history []porcupine.Operation
 			var sigs [][]byte
-			start := make(chan struct{})
+			start := &spinBarrier{n: int32(len(prog))}
 			var wg sync.WaitGroup
 			for gi := range prog {
 				wg.Add(1)
 				go func(gi int) {
 					defer wg.Done()
-					<-start
+					start.wait()
 					for _, op := range prog[gi] {
 						sh := shareBytes(op)
 						call := atomic.AddInt64(&clock, 1)
@@ -349,7 +391,7 @@ func TestC18_Linearizable(t *testing.T) {
 					}
 				}(gi)
 			}
-			close(start)
+			start.open()
 			wg.Wait()
 			describe := func() string {
 				sort.Slice(history, func(i, j int) bool { return history[i].Call < history[j].Call })
